@@ -1,9 +1,6 @@
 import CogentModel.Model.Distance
-import CogentModel.Model.NJ
-import CogentModel.Model.UPGMA
 import CogentModel.Proofs.DistanceLemmas
-import CogentModel.Proofs.NJLemmas
-import CogentModel.Proofs.UPGMALemmas
+import CogentModel.Proofs.ExpandLemmas
 /-! # C15 — property theorems (distance estimators, neighbour joining, UPGMA) -/
 namespace CogentModel.C15
 open CogentModel.Distance
@@ -84,342 +81,77 @@ theorem zero_on_identical (cols : List Col) (hs : ∀ c ∈ cols, c.1 = c.2 ∨ 
 
 example : total (memo (ofCounts (fill ([2, 1, -9, 0].zip [2, 1, 3, 0])))) = 3 := by decide +kernel
 
-/-- `calc.run(); calc.get_pairwise_distances()` on a sequence and its copy: all four cells are the
-literal zero written by `_expand` (for every estimator, including paralinear/LogDet whose formula
-functions return "invalid" for identical sequences). -/
-theorem zero_on_identical_run (c : Calc) (s : List Int) :
-    distanceMatrix c [s, s] = [[.zero, .zero], [.zero, .zero]] := by
-  have h : hasOffDiag (countsOf s s) = false :=
-    hasOffDiag_of_diagonal _ (countsOf_diagonal _ (zip_self_same s))
-  simp [distanceMatrix, run, outerStep, innerStep, expand, expandOne, expandName, cell, dictGet, dictSet,
-    List.range, List.range.loop, h]
-
-/-- For two sequences the whole pipeline returns the estimator applied to the pair's own count matrix
-(or zero if no difference was observed). -/
-theorem pair_matches_direct (c : Calc) (s₁ s₂ : List Int) :
-    distanceMatrix c [s₁, s₂] =
-      if hasOffDiag (countsOf s₁ s₂) then [[.zero, direct c s₁ s₂], [direct c s₁ s₂, .zero]]
-      else [[.zero, .zero], [.zero, .zero]] := by
-  by_cases h : hasOffDiag (countsOf s₁ s₂) = true
-  · simp [distanceMatrix, run, outerStep, innerStep, expand, cell, dictGet, dictSet, direct,
-      List.range, List.range.loop, h]
-  · have h' : hasOffDiag (countsOf s₁ s₂) = false := by simpa using h
-    simp [distanceMatrix, run, outerStep, innerStep, expand, expandOne, expandName, cell, dictGet, dictSet,
-      List.range, List.range.loop, h']
-
-/- FULL STATEMENT (not proved, and FALSE for the code as written): `expand_matches_direct`
-   ∀ c seqs a b, a < seqs.length → b < seqs.length → a ≠ b →
-     (distanceMatrix c seqs)[a][b] = if hasOffDiag (countsOf seqs[a] seqs[b]) then direct c seqs[a] seqs[b] else .zero
-   i.e. the duplicate shortcut + `_expand` give every pair the estimator of that pair alone.
-   The duplicate test "no off-diagonal count" is not transitive when non-canonical characters are present
-   ('ACGTNN' ~ 'ACGTAC' but 'ACGTAC' vs 'ACGATT' differs from 'ACGTNN' vs 'ACGATT'), so the alias gets the
-   distance of the wrong pair.  `expand_matches_direct_counter` below is the witness; for two sequences the
-   statement holds (`pair_matches_direct`). -/
-
-/-- Witness (index arrays of 'ACGTNN', 'ACGTAC', 'ACGATT' under T,C,A,G = 0,1,2,3): the pipeline reports
-p = 1/4 for the pair (1,2) although the pair itself has 3 differences in 6 columns. -/
-theorem expand_matches_direct_counter :
-    ((distanceMatrix .pdist [[2, 1, 3, 0, -9, -9], [2, 1, 3, 0, 2, 1], [2, 1, 3, 2, 0, 0]]).getD 1 []).getD 2 .absent
-        = .hamming 4 (1/4) 1 ∧
-    direct .pdist [2, 1, 3, 0, 2, 1] [2, 1, 3, 2, 0, 0] = .hamming 6 (1/2) 3 := by
-  decide +kernel
-
-/-! ### additions of the audit: the CURRENT duplicate test, end-to-end symmetry of a pair
-
-Since repo commit 259ec35c1 `_PairwiseDistance.run` aliases `j` to `i` only if the index arrays are equal
-(`runR` / `distanceMatrixR`; this is the variant the harness correspondence runs on the current tree —
-`run` / `distanceMatrix` above mirror the code BEFORE that commit). -/
-
 /-- swapping the two sequences of a pair transposes the (tabulated) count matrix -/
-theorem countsOf_swap (s₁ s₂ : List Int) : countsOf s₂ s₁ = tr (countsOf s₁ s₂) := by
-  have hf : ofCounts (fill (s₂.zip s₁)) = tr (ofCounts (fill (s₁.zip s₂))) := by
-    funext i j; rw [zip_swap_int]; exact counts_swap _ i j
-  unfold countsOf
-  rw [hf]
-  funext i j
-  by_cases h : i < 4 ∧ j < 4
-  · rw [memo_apply _ i j h.1 h.2]; unfold tr; rw [memo_apply _ j i h.2 h.1]
-  · rw [memo_out _ i j (by omega)]; unfold tr; rw [memo_out _ j i (by omega)]
+theorem countsOf_swap (s₁ s₂ : List Int) : countsOf s₂ s₁ = tr (countsOf s₁ s₂) :=
+  Distance.countsOf_swap s₁ s₂
 
 /-- **Every estimator is symmetric on a pair, end to end**: index arrays in, pre-log statistic out
 (`counts_swap` + `stat_symmetric` composed through the tabulation). -/
 theorem direct_symmetric (c : Calc) (s₁ s₂ : List Int) : direct c s₂ s₁ = direct c s₁ s₂ := by
-  unfold direct; rw [countsOf_swap]; exact (stat_symmetric c _).1
+  unfold direct; rw [Distance.countsOf_swap]; exact (stat_symmetric c _).1
 
 example : direct .tn93 [2, 1, 3, 0, 2, 2, 1, 0, 3, 3] [2, 1, 3, 0, 3, 2, 0, 0, 3, 1] =
     .tn93 10 (3/10) (3/11) (2/9) (4951/19800) (179/330) (79/180) (79/99) := by decide +kernel
 
-/-- CURRENT code, a sequence and its copy: all four cells are the literal zero -/
-theorem zero_on_identical_run_current (c : Calc) (s : List Int) :
-    distanceMatrixR c [s, s] = [[.zero, .zero], [.zero, .zero]] := by
-  have h : hasOffDiag (countsOf s s) = false :=
-    hasOffDiag_of_diagonal _ (countsOf_diagonal _ (zip_self_same s))
-  simp [distanceMatrixR, runR, outerStepR, innerStepR, expand, expandOne, expandName, cell, dictGet, dictSet,
-    List.range, List.range.loop, h]
-
-/-- CURRENT code, two sequences: the pipeline returns `directR` of the pair — the estimator of the pair's own
-count matrix when a difference was observed; the literal 0 for equal arrays (alias) and for unequal arrays
-without an observed difference; "invalid" when unequal arrays share no canonical column. -/
-theorem pair_matches_direct_current (c : Calc) (s₁ s₂ : List Int) :
-    distanceMatrixR c [s₁, s₂] = [[.zero, directR c s₁ s₂], [directR c s₁ s₂, .zero]] := by
-  unfold directR
-  by_cases h : hasOffDiag (countsOf s₁ s₂) = true
-  · simp [distanceMatrixR, runR, outerStepR, innerStepR, expand, cell, dictGet, dictSet,
-      List.range, List.range.loop, h]
-  · have h' : hasOffDiag (countsOf s₁ s₂) = false := by simpa using h
-    by_cases he : (s₁ == s₂) = true
-    · simp [distanceMatrixR, runR, outerStepR, innerStepR, expand, expandOne, expandName, cell, dictGet, dictSet,
-        List.range, List.range.loop, h', he]
-    · have he' : (s₁ == s₂) = false := by simpa using he
-      by_cases ht : 0 < total (countsOf s₁ s₂)
-      · simp [distanceMatrixR, runR, outerStepR, innerStepR, expand, cell, dictGet, dictSet,
-          List.range, List.range.loop, h', he', ht]
-      · simp [distanceMatrixR, runR, outerStepR, innerStepR, expand, cell, dictGet, dictSet,
-          List.range, List.range.loop, h', he', ht]
+/-- What the code reports for a pair taken alone (`pairReport`: the estimator when a difference was observed;
+the literal 0 for equal arrays and for unequal arrays without an observed difference; "invalid" when unequal
+arrays share no canonical column) is symmetric in the two sequences. -/
+theorem pairReport_symmetric (c : Calc) (s₁ s₂ : List Int) : pairReport c s₂ s₁ = pairReport c s₁ s₂ :=
+  pairReport_symm c s₁ s₂
 
 -- the three non-trivial branches: a difference observed; 'AAAA----' vs '----CCCC' (nothing shared: invalid);
 -- 'ACGTNN' vs 'ACGTAC' (no difference observed, arrays differ: 0 without aliasing)
-example : directR .pdist [2, 1, 3, 0, 2, 1] [2, 1, 3, 2, 0, 0] = .hamming 6 (1/2) 3 := by decide +kernel
-example : directR .jc69 [2, 2, 2, 2, -9, -9, -9, -9] [-9, -9, -9, -9, 1, 1, 1, 1] = .invalid := by decide +kernel
-example : directR .pdist [2, 1, 3, 0, -9, -9] [2, 1, 3, 0, 2, 1] = .zero := by decide +kernel
+example : pairReport .pdist [2, 1, 3, 0, 2, 1] [2, 1, 3, 2, 0, 0] = .hamming 6 (1/2) 3 := by decide +kernel
+example : pairReport .jc69 [2, 2, 2, 2, -9, -9, -9, -9] [-9, -9, -9, -9, 1, 1, 1, 1] = .invalid := by decide +kernel
+example : pairReport .pdist [2, 1, 3, 0, -9, -9] [2, 1, 3, 0, 2, 1] = .zero := by decide +kernel
 
-/-- the witness of `expand_matches_direct_counter` on the CURRENT code: every off-diagonal cell is the
-estimator of that pair alone (pair (1,2): 3 differences in 6 columns, p = 1/2; pair (0,1): literal 0) -/
-theorem expand_matches_direct_current_witness :
-    distanceMatrixR .pdist [[2, 1, 3, 0, -9, -9], [2, 1, 3, 0, 2, 1], [2, 1, 3, 2, 0, 0]] =
+/-- **`expand_matches_direct` (n sequences, the code as it stands)**: for EVERY alignment (any number of
+sequences, any duplicates, gaps, ambiguity codes) and every estimator, every off-diagonal cell (a,b) of
+`calc.run(); calc.get_pairwise_distances()` — the two nested loops with the duplicate shortcut, the
+removal of keys that mention a duplicate, and `_expand` — is exactly what the code reports for the pair
+(a,b) taken alone.  Hence each distance depends only on its two sequences (no dependence on the order or
+presence of other sequences), and the duplicate shortcut is a pure optimisation. -/
+theorem expand_matches_direct (c : Calc) (seqs : List (List Int)) (a b : Nat)
+    (ha : a < seqs.length) (hb : b < seqs.length) (hab : a ≠ b) :
+    ((distanceMatrix c seqs).getD a []).getD b .absent = pairReport c (seqs.getD a []) (seqs.getD b []) := by
+  have hcell : ((distanceMatrix c seqs).getD a []).getD b .absent = cell (expand seqs.length (run c seqs)) a b := by
+    simp [distanceMatrix, List.getD_eq_getElem?_getD, ha, hb]
+  rw [hcell]
+  unfold cell dictGet
+  rw [if_neg hab]
+  show ((expand seqs.length (run c seqs)) a b).getD .absent = _
+  rw [expand_settled c seqs a b ha hb hab]; rfl
+
+/-- the diagonal of the returned matrix is the literal zero -/
+theorem matrix_zero_diagonal (c : Calc) (seqs : List (List Int)) (a : Nat) (ha : a < seqs.length) :
+    ((distanceMatrix c seqs).getD a []).getD a .absent = .zero := by
+  simp [distanceMatrix, List.getD_eq_getElem?_getD, ha, cell]
+
+/-- the whole n×n matrix is symmetric -/
+theorem matrix_symmetric (c : Calc) (seqs : List (List Int)) (a b : Nat)
+    (ha : a < seqs.length) (hb : b < seqs.length) :
+    ((distanceMatrix c seqs).getD a []).getD b .absent = ((distanceMatrix c seqs).getD b []).getD a .absent := by
+  by_cases hab : a = b
+  · rw [hab]
+  · rw [expand_matches_direct c seqs a b ha hb hab, expand_matches_direct c seqs b a hb ha (Ne.symm hab),
+      pairReport_symm]
+
+/-- a sequence and its copy anywhere in an alignment are at distance zero, for every estimator (including
+paralinear/LogDet whose formula functions return "invalid" for identical sequences) -/
+theorem zero_on_identical_run (c : Calc) (seqs : List (List Int)) (a b : Nat)
+    (ha : a < seqs.length) (hb : b < seqs.length) (heq : seqs.getD a [] = seqs.getD b []) :
+    ((distanceMatrix c seqs).getD a []).getD b .absent = .zero := by
+  by_cases hab : a = b
+  · rw [hab]; exact matrix_zero_diagonal c seqs b hb
+  · rw [expand_matches_direct c seqs a b ha hb hab, heq, pairReport_self]
+
+-- the former counter-example ('ACGTNN', 'ACGTAC', 'ACGATT'): every cell is now the pair's own value
+example : distanceMatrix .pdist [[2, 1, 3, 0, -9, -9], [2, 1, 3, 0, 2, 1], [2, 1, 3, 2, 0, 0]] =
       [[.zero, .zero, .hamming 4 (1/4) 1], [.zero, .zero, .hamming 6 (1/2) 3],
-       [.hamming 4 (1/4) 1, .hamming 6 (1/2) 3, .zero]] ∧
-    directR .pdist [2, 1, 3, 0, 2, 1] [2, 1, 3, 2, 0, 0] = .hamming 6 (1/2) 3 := by
-  decide +kernel
-
-/- FULL STATEMENT (not proved) for the current code: `expand_matches_direct_current`
-   ∀ c seqs a b, a < seqs.length → b < seqs.length → a ≠ b →
-     ((distanceMatrixR c seqs).getD a []).getD b .absent = directR c (seqs.getD a []) (seqs.getD b [])
-   Now expected to be TRUE (aliases are equal arrays, so an alias's pair statistics are the duplicate's), but the
-   induction over the two `foldl` loops, the `dupes` set and the `_expand` dictionary is not done; proved for two
-   sequences (`pair_matches_direct_current`) and checked on the former counter-example. -/
-
-/-! ## 2. neighbour joining -/
-section NJ
-open CogentModel.NJ
-
-/-- If `(i, j)` is a cherry of the (symmetric, zero-diagonal) matrix `d` on `L > 2` nodes with pendant
-lengths `ai, aj ≥ 0`, the two branch lengths computed by `PartialTree.join` are exactly `ai` and `aj`
-(the `max(0.0, ·)` clamps are inactive). -/
-theorem nj_cherry_lengths (d : Mat) (L i j : Nat) (ai aj : Rat) (e : Nat → Rat) (hL : 2 < L)
-    (hs : Sym d L) (hz : ZeroDiag d L) (hc : Cherry d L i j ai aj e) :
-    leftLen d L i j = ai ∧ rightLen d L i j = aj :=
-  ⟨leftLen_cherry d L i j ai aj e hL hs hz hc, rightLen_cherry d L i j ai aj e hL hs hz hc⟩
-
-/-- The reduced matrix returned by `join` is the metric of the tree with the cherry collapsed into its
-parent `u`: entry (a,b) of the shortened array reads position `src a`, `src b` of the old one
-(`src` = "the last row moved into slot j"), the new node sits where `src · = i`, its distances are
-`e k = d(u,k)`, all other entries are unchanged, and the array stays symmetric with zero diagonal. -/
-theorem nj_reduced_additive (d : Mat) (L i j : Nat) (ai aj : Rat) (e : Nat → Rat)
-    (hs : Sym d L) (hz : ZeroDiag d L) (hc : Cherry d L i j ai aj e) (a b : Nat) (ha : a < L - 1) (hb : b < L - 1) :
-    (src L j a = i → src L j b ≠ i → get (joinMat d L i j) a b = e (src L j b)) ∧
-    (src L j a ≠ i → src L j b = i → get (joinMat d L i j) a b = e (src L j a)) ∧
-    (src L j a ≠ i → src L j b ≠ i → get (joinMat d L i j) a b = get d (src L j a) (src L j b)) ∧
-    get (joinMat d L i j) a b = get (joinMat d L i j) b a ∧ get (joinMat d L i j) a a = 0 := by
-  have hab : get (joinMat d L i j) a b = base d i j (src L j a) (src L j b) := by
-    unfold joinMat; rw [get_tab _ _ _ _ ha hb]
-  have hba : get (joinMat d L i j) b a = base d i j (src L j b) (src L j a) := by
-    unfold joinMat; rw [get_tab _ _ _ _ hb ha]
-  have haa : get (joinMat d L i j) a a = base d i j (src L j a) (src L j a) := by
-    unfold joinMat; rw [get_tab _ _ _ _ ha ha]
-  refine ⟨?_, ?_, ?_, ?_, ?_⟩
-  · intro hx hy
-    rw [hab]; unfold base
-    rw [if_neg (fun h => hy h.2), if_pos hx]
-    exact newDist_cherry d L i j ai aj e hc _ (src_lt _ _ _ hb) hy (src_ne_j _ _ _ hb)
-  · intro hx hy
-    rw [hab]; unfold base
-    rw [if_neg (fun h => hx h.1), if_neg hx, if_pos hy]
-    exact newDist_cherry d L i j ai aj e hc _ (src_lt _ _ _ ha) hx (src_ne_j _ _ _ ha)
-  · intro hx hy
-    rw [hab]; unfold base
-    rw [if_neg (fun h => hx h.1), if_neg hx, if_neg hy]
-  · rw [hab, hba]; exact base_sym d L i j _ _ hs (src_lt _ _ _ ha) (src_lt _ _ _ hb)
-  · rw [haa]; unfold base
-    by_cases h : src L j a = i
-    · simp [h]
-    · simp [h]; exact hz _ (src_lt _ _ _ ha)
-
-/-- The final three-node resolution (`asScoreTreeTuple`): for a symmetric zero-diagonal 3×3 matrix the three
-lengths are `(d_ab + d_ac − d_bc)/2`, so any two of them add up to the corresponding distance. -/
-theorem nj_three_point (d : Mat) (hs : Sym d 3) (hz : ZeroDiag d 3) :
-    finalLen d 0 + finalLen d 1 = get d 0 1 ∧ finalLen d 0 + finalLen d 2 = get d 0 2 ∧
-    finalLen d 1 + finalLen d 2 = get d 1 2 := by
-  obtain ⟨f0, f1, f2⟩ := finalLen_vals d hs hz
-  rw [f0, f1, f2]
-  refine ⟨by ring, by ring, by ring⟩
-
-/-- the loop ends with exactly three nodes when started from `n ≥ 3` labels -/
-theorem nj_loop_ends_with_three (n : Nat) (hn : 3 ≤ n) (sel : PT → Nat × Nat) (d : Mat) :
-    (njLoop sel n (star n d)).L = 3 :=
-  njLoop_L sel n (star n d) hn (by show n - 3 ≤ n; omega)
-
-example : Sym [[0, 3, 4], [3, 0, 5], [4, 5, 0]] 3 ∧ ZeroDiag [[0, 3, 4], [3, 0, 5], [4, 5, 0]] 3 := by
-  constructor
-  · intro a b ha hb
-    have : a = 0 ∨ a = 1 ∨ a = 2 := by omega
-    have : b = 0 ∨ b = 1 ∨ b = 2 := by omega
-    rcases ‹a = 0 ∨ _› with rfl | rfl | rfl <;> rcases ‹b = 0 ∨ _› with rfl | rfl | rfl <;> decide +kernel
-  · intro a ha
-    have : a = 0 ∨ a = 1 ∨ a = 2 := by omega
-    rcases this with rfl | rfl | rfl <;> decide +kernel
-example : finalLen [[0, 3, 4], [3, 0, 5], [4, 5, 0]] 0 = 1 := by decide +kernel
-
-/-- NJ realises `D` whenever every selected pair is a cherry of the current matrix — for ANY selection rule
-`sel` (in particular for `pickPair`, the model of `argsort(scores)[first off-diagonal]`, and for any other
-tie-breaking).  `D` symmetric with zero diagonal on `n ≥ 3` labels; `hch`: at every state reached by the
-loop with more than three nodes the selected pair is a cherry; `htri`: the last three nodes satisfy the
-triangle inequality (`n ≥ 3`).  Then in the returned root every child subtree realises `D`, tips under different
-children are at path distance `D` through the root, and the tips are exactly the labels `0..n-1`. -/
-theorem nj_realises_additive_partial (D : Nat → Nat → Rat) (n : Nat) (sel : PT → Nat × Nat)
-    (hDs : ∀ a b, D a b = D b a) (hDz : ∀ a, D a a = 0)
-    (hch : ∀ k, 3 < (njLoop sel k (star n (tab n D))).L →
-      ∃ ai aj e, Cherry (njLoop sel k (star n (tab n D))).d (njLoop sel k (star n (tab n D))).L
-        (sel (njLoop sel k (star n (tab n D)))).1 (sel (njLoop sel k (star n (tab n D)))).2 ai aj e)
-    (hn : 3 ≤ n)
-    (htri : Tri3 (njLoop sel n (star n (tab n D))).d) :
-    RootReal D (finish (njLoop sel n (star n (tab n D)))) ∧
-    Labels n (njLoop sel n (star n (tab n D))) :=
-  ⟨finish_real D _ (nj_loop_ends_with_three n hn sel _) (njLoop_inv D sel n _ (star_inv D n hDs hDz) hch) htri,
-   njLoop_labels n sel n _ (star_labels n _) hch⟩
-
-/-- quartet ((0:1,1:2):4,2:2,3:3): tips 0,1 form a cherry with pendant lengths 1 and 2 -/
-def exD : Mat := [[0, 3, 7, 8], [3, 0, 8, 9], [7, 8, 0, 5], [8, 9, 5, 0]]
-
-/-- Per-instance certificate: `njCertified n d` is a computable check (every pair selected by the model's
-`pickPair` is a cherry of the current matrix, the last three nodes satisfy the triangle inequality) that the
-driver evaluates on every test matrix; whenever it returns `true`, the tree returned by the model of `nj`
-realises `D` and carries exactly the labels.  (This replaces the unproved `nj_selects_cherry` instance by
-instance.) -/
-theorem nj_realises_additive_checked (D : Nat → Nat → Rat) (n : Nat) (hn : 3 ≤ n)
-    (hDs : ∀ a b, D a b = D b a) (hDz : ∀ a, D a a = 0) (hc : njCertified n (tab n D) = true) :
-    RootReal D (nj n (tab n D)) ∧ Labels n (njLoop pickPair n (star n (tab n D))) := by
-  unfold njCertified at hc
-  rw [Bool.and_eq_true] at hc
-  have hn2 : n ≠ 2 := by omega
-  unfold nj; rw [if_neg hn2]
-  exact nj_realises_additive_partial D n pickPair hDs hDz (njCheck_sound pickPair n _ hc.1) hn (tri3B_sound _ hc.2)
-
-example : njCertified 4 exD = true := by decide +kernel
-
-/-- and `nj` (n ≠ 2) is that loop with the model's selection rule followed by `finish` -/
-theorem nj_eq_loop (n : Nat) (hn : n ≠ 2) (d : Mat) : nj n d = finish (njLoop pickPair n (star n d)) := by
-  unfold nj; rw [if_neg hn]
-
-example : Cherry exD 4 0 1 1 2 (fun k => if k = 2 then 6 else 7) := by
-  refine ⟨by decide, by decide, by decide, by decide, by decide, by decide +kernel, ?_, ?_⟩ <;>
-  · intro k hk h0 h1
-    have : k = 2 ∨ k = 3 := by omega
-    rcases this with rfl | rfl <;> decide +kernel
-
-example : pickPair (star 4 exD) = (0, 1) := by decide +kernel
-example : nj 4 exD = [(4, .bin 1 (.tip 0) 2 (.tip 1)), (3, .tip 3), (2, .tip 2)] := by decide +kernel
-example : Tri3 (njLoop pickPair 4 (star 4 exD)).d := by unfold Tri3; decide +kernel
-
-/- FULL STATEMENT (not proved): `nj_selects_cherry` (Studier & Keppler 1988; Durbin et al. §7.3)
-   ∀ (d : Mat) (L : Nat), 3 < L → Sym d L → ZeroDiag d L →
-     (d is the path metric of a tree with positive branch lengths on leaves 0..L-1) →
-     ∀ score, let (i, j) := pickPair ⟨L, d, nodes, score⟩;
-       ∃ ai aj e, Cherry d L i j ai aj e
-   (every off-diagonal minimiser of Q(a,b) = d(a,b) − (r_a + r_b)/(L−2) is a pair of neighbours).
-   With it the hypothesis `hch` of `nj_realises_additive_partial` is discharged for `sel = pickPair` by
-   induction (`nj_reduced_additive` keeps the matrix a tree metric) and NJ returns the generating tree for every
-   additive matrix.  Not proved here: the argument needs a formal tree-metric type and the counting
-   inequality over the subtrees hanging off the i–j path.  Until then the conclusion is CHECKED PER INSTANCE on
-   the real implementation by harness/c15.py (`_JoinRecorder`: every join of nj() on an additive matrix of a
-   binary generating tree is a split of that tree), and the final output is compared with the generating
-   tree. -/
-
-end NJ
-
-/-! ## 3. UPGMA -/
-section UPGMA
-open CogentModel.UPGMA
-open CogentModel.NJ (Mat get tab)
-
-/-- Key lemma: in a symmetric matrix satisfying the three-point (ultrametric) condition on the live set `S`,
-a globally minimal pair `(i, j)` has identical rows: `d i k = d j k` for every other live `k`.  Hence the
-row average taken by `condense_matrix` is exact. -/
-theorem upgma_min_pair_rows_equal (S : Nat → Prop) (d : Nat → Nat → Rat) (i j : Nat)
-    (hsym : ∀ a b, S a → S b → d a b = d b a) (hu : Ultra S d) (hi : S i) (hj : S j) (hij : i ≠ j)
-    (hmin : ∀ a b, S a → S b → a ≠ b → d i j ≤ d a b) (k : Nat) (hk : S k) (hki : k ≠ i) (hkj : k ≠ j) :
-    d i k = d j k :=
-  min_pair_rows_equal S d i j hsym hu hi hj hij hmin k hk hki hkj
-
-example : Ultra (fun a => a < 3) (fun a b => if a = b then 0 else if a + b = 1 then 2 else 6) := by
-  intro x y z hx hy hz hxy hyz hxz
-  have : x = 0 ∨ x = 1 ∨ x = 2 := by omega
-  have : y = 0 ∨ y = 1 ∨ y = 2 := by omega
-  have : z = 0 ∨ z = 1 ∨ z = 2 := by omega
-  rcases ‹x = 0 ∨ _› with rfl | rfl | rfl <;> rcases ‹y = 0 ∨ _› with rfl | rfl | rfl <;>
-    rcases ‹z = 0 ∨ _› with rfl | rfl | rfl <;> first | omega | decide +kernel
-
-/-- One-step reduction, on the model of `condense_node_order` + `condense_matrix`: if the state realises `D`
-(`UInv`: live part of the matrix symmetric and ultrametric, every live node an equal-depth subtree realising
-`D` with non-negative branch lengths, different live nodes at matrix distance) and `(i, j)` is a live pair
-of globally minimal distance, then the state after merging `i` and `j` realises `D` again — in
-particular the reduced matrix is again ultrametric and the new node's branch lengths are non-negative. -/
-theorem upgma_reduced_ultrametric (D : Nat → Nat → Rat) (n : Nat) (big : Rat) (m : Mat) (order : List (Option Entry))
-    (i j : Nat) (hI : UInv D n m order) (hi : Live order i) (hj : Live order j) (hij : i ≠ j)
-    (hmin : ∀ a b, Live order a → Live order b → a ≠ b → get m i j ≤ get m a b) :
-    UInv D n (stepWith n big order m (i, j)).m (stepWith n big order m (i, j)).order :=
-  stepWith_inv D n big m order i j hI hi hj hij hmin
-
-/-- UPGMA realises every ultrametric, provided each pass selects a live minimal pair (`GoodSel`, see the full
-statement below).  `D` symmetric, non-negative, three-point condition on the labels `0..n-1`, `n ≥ 2`:
-`upgma` returns a tree whose path distances between tips equal `D` (`UReal`), whose branch lengths are all
-non-negative and whose tips are all at the same depth. -/
-theorem upgma_realises_ultrametric_partial (D : Nat → Nat → Rat) (n : Nat) (hn : 2 ≤ n) (big : Rat)
-    (hDs : ∀ a b, D a b = D b a) (hDn : ∀ a b, 0 ≤ D a b)
-    (hDu : ∀ x y z, x < n → y < n → z < n → x ≠ y → y ≠ z → x ≠ z → D x z ≤ max (D x y) (D y z))
-    (hg : ∀ t, t < n - 1 → GoodSel n big (iter n big t (init n (tab n D) big))) :
-    ∃ t h, upgma n (tab n D) big = some t ∧ UReal D t ∧ NonNeg t ∧ ∀ p ∈ t.depths, p.2 = h := by
-  have hI0 := init_inv D n big hDs hDn hDu
-  obtain ⟨k, hk⟩ : ∃ k, n - 1 = k + 1 := ⟨n - 2, by omega⟩
-  rw [upgma_eq, hk]
-  rw [hk] at hg
-  obtain ⟨a, e, he1, he2⟩ := iter_tree D n big k _ hI0 hg
-  obtain ⟨hd, hr, hnn, _⟩ := (iter_inv D n big (k + 1) _ hI0 hg).node a e he2
-  exact ⟨e.tree, e.height, by rw [he1]; rfl, hr, hnn, hd⟩
-
-/-- ultrametric ((0:1,1:1):2,2:3) -/
-def exU : Mat := [[0, 2, 6], [2, 0, 6], [6, 6, 0]]
-
-/-- Per-instance certificate: `upgmaCertified n d big` is a computable check (at each of the `n-1` passes the
-pair found by `find_smallest_index` is a pair of distinct live clusters at minimal live distance) evaluated by
-the driver on every test matrix; whenever it is `true` the model of `upgma` returns an equal-depth tree with
-non-negative branch lengths whose path distances are `D`. -/
-theorem upgma_realises_ultrametric_checked (D : Nat → Nat → Rat) (n : Nat) (hn : 2 ≤ n) (big : Rat)
-    (hDs : ∀ a b, D a b = D b a) (hDn : ∀ a b, 0 ≤ D a b)
-    (hDu : ∀ x y z, x < n → y < n → z < n → x ≠ y → y ≠ z → x ≠ z → D x z ≤ max (D x y) (D y z))
-    (hc : upgmaCertified n (tab n D) big = true) :
-    ∃ t h, upgma n (tab n D) big = some t ∧ UReal D t ∧ NonNeg t ∧ ∀ p ∈ t.depths, p.2 = h :=
-  upgma_realises_ultrametric_partial D n hn big hDs hDn hDu
-    (allGood_sound D n big (n - 1) _ (init_inv D n big hDs hDn hDu) hc)
-
-example : upgmaCertified 3 exU 1000000 = true := by decide +kernel
-
-example : upgma 3 exU 1000000 = some (.node (.node (.tip 0) 1 (.tip 1) 1) 2 (.tip 2) 3) := by decide +kernel
-example : select 3 1000000 (init 3 exU 1000000).m = ((init 3 exU 1000000).m, (0, 1)) := by decide +kernel
-
-/- FULL STATEMENT (not proved): `upgma_realises_ultrametric`
-   ∀ D n big, 2 ≤ n → D symmetric, zero diagonal, non-negative, three-point condition on 0..n-1 →
-     (∀ a b < n, 2^n * D a b < big) →
-     ∃ t, upgma n (tab n D) big = some t ∧ UReal D t ∧ NonNeg t ∧ t.tips ~ List.range n
-   i.e. `upgma_realises_ultrametric_partial` without the hypothesis `hg` and with "the tips are exactly the
-   labels".  Missing: (1) `GoodSel` for every reached state: `findSmallest` (first minimum of the flattened
-   array) returns a live off-diagonal pair because dead rows/columns hold `big`, and the diagonal of a merged
-   cluster holds (diag + d)/2 ≥ big / 2^k after k merges, which stays above every live distance — arithmetic
-   about the BIG_NUM sentinel that needs the quantitative side condition above; (2) the count of live
-   clusters (n - k after k passes), so that the node returned last contains every label.  Both are exercised
-   on every run: the model's tree is compared with `upgma()` (correspondence), and the real `upgma()` is
-   compared with the generating tree incl. its tip set (spec_check). -/
-
-end UPGMA
+       [.hamming 4 (1/4) 1, .hamming 6 (1/2) 3, .zero]] := by decide +kernel
+-- duplicates are aliased and expanded: rows 0, 2 and 3 are the same array
+example : distanceMatrix .pdist [[2, 1, 3, 0], [2, 1, 3, 2], [2, 1, 3, 0], [2, 1, 3, 0]] =
+      [[.zero, .hamming 4 (1/4) 1, .zero, .zero], [.hamming 4 (1/4) 1, .zero, .hamming 4 (1/4) 1, .hamming 4 (1/4) 1],
+       [.zero, .hamming 4 (1/4) 1, .zero, .zero], [.zero, .hamming 4 (1/4) 1, .zero, .zero]] := by decide +kernel
 
 end CogentModel.C15
